@@ -29,6 +29,10 @@ extra() {  # checks tried in addition to the seed's own property
     C01a|C05a) echo "C01 C05" ;;
     C13b) echo "C14" ;;
     C11b|C18b) echo "C18 C11" ;;
+    C02e) echo "C03 C12" ;;
+    C09e) echo "C08" ;;
+    C03e) echo "C08" ;;
+    C14e) echo "C02" ;;
     *) echo "" ;;
   esac
 }
